@@ -7,8 +7,14 @@ CMP = set(NEG)
 
 
 def strip_casts(n):
-    while n is not None and n.k in ('CXXStaticCastExpr', 'CStyleCastExpr', 'CXXFunctionalCastExpr', 'CXXReinterpretCastExpr', 'CXXConstCastExpr') and n.c:
-        n = n.c[0]
+    """strip explicit casts and value-preserving single-argument constructions (copies / conversions)"""
+    while n is not None and not isinstance(n, int):
+        if n.k in ('CXXStaticCastExpr', 'CStyleCastExpr', 'CXXFunctionalCastExpr', 'CXXReinterpretCastExpr', 'CXXConstCastExpr') and n.c:
+            n = n.c[0]
+        elif n.d.get('ctor') and len(n.c) == 1 and n.k in ('CXXConstructExpr',):
+            n = n.c[0]
+        else:
+            break
     return n
 
 
@@ -277,3 +283,25 @@ def field_ctor_param(facts, cls_q, field):
                         if p['n'] == r.n:
                             return idx
     return None
+
+
+def as_binop(n):
+    """(op, lhs, rhs) for a built-in or overloaded binary operator node, else None"""
+    n = strip_casts(n)
+    if n is None or isinstance(n, int):
+        return None
+    if n.k in ('BinaryOperator', 'CompoundAssignOperator') and len(n.c) == 2:
+        return n.o, strip_casts(n.c[0]), strip_casts(n.c[1])
+    if n.k == 'CXXOperatorCallExpr' and len(n.c) == 2 and n.o not in ('()', '[]'):
+        return n.o, strip_casts(n.c[0]), strip_casts(n.c[1])
+    return None
+
+
+def enclosing_ifs(n):
+    """IfStmt ancestors whose then/else branch contains n: yields (ifstmt, 'then'|'else')"""
+    prev = n
+    for a in n.ancestors():
+        if a.k == 'IfStmt':
+            if prev.r in ('then', 'else'):
+                yield a, prev.r
+        prev = a
